@@ -27,7 +27,7 @@ ASSUMPTIONS = ["integer random_state only", "hyperparameter immutability is asse
                "alpha, dynamic and every other hyperparameter as it found them"]
 EVAL_COUNTER = "histories"
 REQUIRED = {"quick": dict({"histories": 450, "final_states_compared": 420, "side_effect_checks": 1200, "crashed_fits_injected": 60,
-                           "paths_in_history": 40, "final_paths_compared": 40, "clone_roundtrips": 450, "refits_compared": 400},
+                           "paths_in_history": 40, "histories_reconfigured_for_good": 90, "final_paths_compared": 40, "clone_roundtrips": 450, "refits_compared": 400},
                           **{"hist:" + e: 12 for e in gen.ESTIMATORS}),
             "thorough": {"histories": 9000}}
 SHARD_TIMEOUT = {"quick": 1200, "thorough": 7000}
@@ -190,6 +190,49 @@ def run_case(case, ctx, st):
     # ---- the object with a history ---------------------------------------------------------------------------
     est = build()
     ops = []
+    if rng.random() < 0.35:
+        # the object starts its life under ANOTHER configuration (possibly fitted under it) and is then brought to the
+        # configuration of the reference through set_params: "after any sequence of ... parameter changes ... the same
+        # model"; every hyperparameter set_params reports is the one fit uses
+        import copy as _copy
+        START = {"learning_rate": lambda v: v * 3, "max_iter": lambda v: v + 2, "n_clusters": lambda v: v + 1,
+                 "max_clusters": lambda v: v + 1, "alpha": lambda v: v * 2 + 0.01, "M": lambda v: v + 1.0,
+                 "n_hidden_dim": lambda v: v + 1, "reg": lambda v: v + 0.5, "temperature": lambda v: v * 2,
+                 "solver": lambda v: "sgd" if v == "adam" else "adam", "ovo": lambda v: not v,
+                 "batch_size": lambda v: 3 if v is None else None,
+                 "base_kernel": lambda v: ("rbf" if v != "rbf" else "linear") if isinstance(v, str) else v,
+                 "kernel": lambda v: ("rbf" if v != "rbf" else "linear") if isinstance(v, str) and v != "precomputed" else v,
+                 "kernel_params": lambda v: None if v else v, "metric_params": lambda v: None if v else v,
+                 "metric": lambda v: ("manhattan" if v != "manhattan" else "euclidean") if v != "precomputed" else v,
+                 "gemini": lambda v: ("tv_ova" if v != "tv_ova" else "mmd_ovo") if (isinstance(v, str) or v is None) and not pre else v}
+        keys = [k for k in START if k in params]
+        special = [k for k in keys if k in ("kernel", "metric", "ovo", "gemini", "base_kernel", "kernel_params", "metric_params")]
+        chosen = set(int(x) for x in rng.integers(0, len(keys), size=2)) if keys else set()
+        changed = {keys[j] for j in chosen} | ({special[int(rng.integers(0, len(special)))]} if special and rng.random() < 0.7 else set())
+        start = dict(params)
+        for k in changed:
+            start[k] = START[k](params[k])
+        changed = {k for k in changed if start[k] != params[k]}
+        if changed:
+            ops.append("born-as:" + ",".join(sorted(changed)))
+            ctx.count("histories_reconfigured_for_good")
+            try:
+                e0 = gen.build_estimator(name, start)
+                if decorate:
+                    from gemclus import add_mlcl_constraint
+                    e0 = add_mlcl_constraint(e0, mlcl[0], mlcl[1], mlcl[2])
+                if rng.random() < 0.6:
+                    with warnings.catch_warnings():
+                        warnings.simplefilter("ignore")
+                        try:
+                            e0.fit(Xref, yref)
+                            e0.score(Xref, yref)
+                        except Exception:
+                            pass
+                e0.set_params(**{k: _copy.deepcopy(params[k]) for k in changed})
+                est = e0
+            except Exception as e:
+                ctx.count("reconfigure_raised:" + type(e).__name__)
     fitted = False
     L = int(rng.integers(0, 7))
     menu = ["fit_other", "fit_same", "fit_predict", "query", "set_params", "clone", "crash_fit"]
